@@ -104,6 +104,10 @@ pub struct Model {
     pub pending: u64,
     pub packets: BTreeMap<u64, MPacket>,
     pub halted: bool,
+    /// roles as the history of successful operations defines them (not as the contract reports them)
+    pub admin: String,
+    pub nominee: Option<String>,
+    pub monitors: Vec<String>,
 }
 
 #[derive(Clone, Debug, Hash, PartialEq, Eq, Serialize, Default)]
@@ -133,6 +137,9 @@ pub struct Ghost {
     pub resent: BTreeMap<u64, u8>,
     /// endowment of staked asset given to protocol-chain users (for the simulator self-check)
     pub endowment: u128,
+    /// LST handed to the IBC module by stakes, per native-chain recipient; and what was acknowledged there
+    pub lst_sent: BTreeMap<String, u128>,
+    pub lst_acked: BTreeMap<String, u128>,
 }
 
 #[derive(Clone, Debug, Hash, PartialEq, Eq)]
@@ -173,7 +180,7 @@ impl Sim {
         );
         Ok(Sim {
             w,
-            m: Model { batches, pending: 1, packets: BTreeMap::new(), halted: true },
+            m: Model { batches, pending: 1, packets: BTreeMap::new(), halted: true, admin: p20("adm"), nominee: None, monitors: monitors_of(k) },
             g: Ghost { honest: true, ..Default::default() },
         })
     }
@@ -273,6 +280,9 @@ impl Sim {
                     if p.denom == staked_denom() && p.receiver == n20(&self.w.k, "staker") {
                         self.g.acked_total += p.amount;
                     }
+                    if p.denom == self.w.lst_denom() {
+                        *self.g.lst_acked.entry(p.receiver.clone()).or_insert(0) += p.amount;
+                    }
                     if p.callback {
                         self.m.packets.remove(&seq);
                     }
@@ -320,6 +330,13 @@ impl Sim {
             .sum();
         match msg {
             ExecuteMsg::LiquidStake { .. } => {
+                for e in &out.events {
+                    if let Ev::Transfer { denom, amount, receiver, .. } = e {
+                        if *denom == lst {
+                            *self.g.lst_sent.entry(receiver.clone()).or_insert(0) += amount;
+                        }
+                    }
+                }
                 self.g.fwd += staked_fwd;
                 self.g.fwd_total += staked_fwd;
                 let post = self.w.state();
@@ -415,6 +432,19 @@ impl Sim {
             }
             ExecuteMsg::CircuitBreaker {} => {
                 self.m.halted = true;
+            }
+            ExecuteMsg::TransferOwnership { new_owner } => {
+                self.m.nominee = Some(new_owner.clone());
+            }
+            ExecuteMsg::RevokeOwnershipTransfer {} => {
+                self.m.nominee = None;
+            }
+            ExecuteMsg::AcceptOwnership {} => {
+                self.m.admin = sender.to_string();
+                self.m.nominee = None;
+            }
+            ExecuteMsg::UpdateConfig { monitors: Some(l), .. } => {
+                self.m.monitors = l.clone();
             }
             ExecuteMsg::ResumeContract { total_native_token, total_liquid_stake_token, .. } => {
                 self.m.halted = false;
